@@ -32,6 +32,11 @@ CLAIMED['C07'] = dict(
    text='Machine-checked theorem about ramalhete_queue node destructor generated from the source: for every node size and every (pop_idx, push_idx) ticket state it destroys exactly the entries of the tickets in [pop, min(push, max)) once each; all queues x owning element kinds (Obj, unique_ptr) x small nodes x destruction with elements inside are covered by a schedule search whose ownership census uses tracked heap tokens (double destruction = double free, leak = live token).',
    note='Trusted: Coq kernel, translator, xvrt/harness. Proved for the generated destructor loop; the other destructors and roll-back paths are explored, not proved.',
    technique='Coq proof over generated destructor; schedule search with ownership census', design='5/C07')
+for _p, _t in (('C08', 'Harris-Michael set/map'), ('C09', 'Harris-Michael iterators'), ('C10', 'vyukov_hash_map'), ('C11', 'vyukov_hash_map iterators')):
+    CLAIMED[_p] = dict(
+       text='%s: the deciding part so far is a schedule search over the real code (random, PCT, preemption-bounded DFS, prefix sweeps, sequential op sequences; quarantine and reuse allocator modes; several reclaimers) with exact oracles: linearizability of every explored history against the set/map specification, final traversal and lock-free probes, iterator yield rules, use-after-free / double-free / lost-lock detection. The Coq obligations of this property are still placeholders (a monotonicity / positivity lemma); the structural theorems over a list/bucket model are work in progress.' % _t,
+       note='Exploration with exact oracles, not a proof: the Coq part does not yet carry the property. SC interleavings only.',
+       technique='schedule search with exact linearizability and memory oracles (Coq model pending)', design='5/' + _p)
 NOT_YET = {}
 props = [json.loads(l) for l in open(os.path.join(V, 'properties.jsonl'))]
 checks, na = [], []
